@@ -38,7 +38,7 @@ INVS = ("INVARIANTS TypeOK C18_Deadline C18_FindsHealthy C18_TcpRetry C18_Untrus
 
 # the shape of the one root cause behind several give-up classes (see proposed/C18-findings.txt)
 UDP_DROPPED = "udp-only-servers-dropped-after-truncated-reply"
-PRIORITY = ["panic", "deadline-exceeded", "connect-timeout-not-honoured", "exchange-not-shared", "shared-result-differs", "answer-without-exchange",
+PRIORITY = ["panic", "deadline-exceeded", "connect-timeout-not-honoured", "distinct-queries-shared-one-exchange", "exchange-not-shared", "shared-result-differs", "answer-without-exchange",
             "nxdomain-without-exchange", "truncated-without-exchange", "untrusted-nx-ended-search",
             "truncated-not-retried-over-tcp", "busy-server-not-retried", "healthy-server-not-used",
             "request-for-another-query", "caller-never-completed", "unexpected-result"]
@@ -118,7 +118,9 @@ def run(res, tier, seed):
     # ---- R (+ T on the same runs)
     # (generator, configuration set, callers, binding level)
     gens = [("G_two", "MC_Two", 1, "connection"), ("G_shared", "MC_Shared", 2, "connection"),
-            ("G_busy", "MC_Busy", 1, "connection"), ("G_sock", "MC_Sock", 2, "socket")]
+            ("G_busy", "MC_Busy", 1, "connection"), ("G_sock", "MC_Sock", 2, "socket"),
+            # the same arrival patterns with a second caller whose query differs from the first one's in the CD bit only
+            ("G_shared_cd", "MC_Shared", 2, "connection")]
     if thorough:
         gens += [("G_three", "MC_Three", 1, "connection"), ("G_shared3", "MC_Shared", 3, "connection")]
     traces = []
@@ -137,6 +139,9 @@ def run(res, tier, seed):
             if d not in seen:
                 seen.add(d)
                 uniq.append(c)
+        if gname == "G_shared_cd":
+            for c in uniq:
+                c["calls"][1]["cd"] = 1
         if level == "socket":
             # callers come one after the other there (over TCP a request carries no trace of its caller):
             # keep the behaviours without joiners, `at` becomes the pause after the previous caller
